@@ -261,6 +261,9 @@ def r_premise(ctx):
 
 @rule("C15.R90", 'premises shared with other properties: C04 (C04.R2); C02 (C02.R9); C03 (C03.R4, C03.R6)')
 def r_premises_shared(ctx):
+    from rules.C07 import inv_cap
+    probs = inv_cap(ctx)
+    ctx.ob("premise INV-CAP (move list capacity)", not probs, f"the plugin generates moves for any accepted position; the move list can overflow: {probs[:2]}")
     """This property's argument rests on these rules of other properties (what it calls is assumed to behave); they are re-run here so that a
     breakage of one of them is reported by this property's own check as well."""
     from analysis.runner import premise
